@@ -43,7 +43,7 @@ def install(names, ctx):
         if n in _INSTALLED:
             continue
         {'buf': install_buf, 'tok': install_tok, 'read': install_read,
-         'args': install_args, 'edit': install_edit}[n]()
+         'args': install_args, 'edit': install_edit, 'reach': install_reach}[n]()
         _INSTALLED.add(n)
 
 
@@ -380,3 +380,39 @@ def install_edit():
             violation('edit', 'append disturbed the existing elements')
         return r
     TexExpr.append = append
+
+
+# ---------------------------------------------------------------- P-reach --
+
+def install_reach():
+    """Reach monitor (sys.monitoring, Python 3.12): which functions and lines
+    of TexSoup the workload actually executed.  PY_START events count calls
+    per function ('reach:<module>.<qualname>'); LINE events record each line
+    once (the callback returns DISABLE, so the cost is paid once per line).
+    A property lists the functions its anchors name (`reach_required`); one
+    that was never reached makes the verdict inconclusive, never "held"."""
+    import sys
+    mon = sys.monitoring
+    tool = mon.COVERAGE_ID
+    try:
+        mon.use_tool_id(tool, 'tsv-reach')
+    except ValueError:
+        return                      # another coverage tool owns the id
+    root = os.path.join(env.REPO, 'TexSoup') + os.sep
+
+    def on_start(code, offset):
+        fn = code.co_filename
+        if not fn.startswith(root):
+            return mon.DISABLE
+        key = 'reach:%s.%s' % (os.path.basename(fn)[:-3], code.co_qualname)
+        CTX.counters[key] = CTX.counters.get(key, 0) + 1
+
+    def on_line(code, line):
+        fn = code.co_filename
+        if fn.startswith(root):
+            CTX.seen('lines:' + os.path.basename(fn)[:-3], line)
+        return mon.DISABLE
+
+    mon.register_callback(tool, mon.events.PY_START, on_start)
+    mon.register_callback(tool, mon.events.LINE, on_line)
+    mon.set_events(tool, mon.events.PY_START | mon.events.LINE)
